@@ -249,6 +249,7 @@ func (v *Verifier) callFuncValue(s *State, call *ast.CallExpr) []*Term {
 // funcTypeContracts maps a function type to the name of its contract in gvc/functype.
 var funcTypeContracts = map[string]string{
 	"func() hash.Hash": "hashCtor",
+	"func(io.Reader) (*ecdh.PrivateKey, error)": "ecdhGenKey",
 	// SLH-DSA hash function fields (internal/signature/slhdsa.params)
 	"func(r []byte, pkSeed []byte, pkRoot []byte, msg []byte, m uint32) []byte": "slhHMsg",
 	"func(pkSeed []byte, skSeed []byte, adrs *slhdsa.address, n uint32) []byte":  "slhPrf",
@@ -1078,8 +1079,10 @@ func (v *Verifier) havocAssigns(s *State, pre *State, fc *FuncContract, env *CEn
 // package that is not loaded for this check is skipped: no object of that type can occur in
 // the code being verified.
 func (v *Verifier) havocItemLenient(s *State, pre *State, env *CEnv, a *CExpr, fc *FuncContract) {
+	q0 := v.inQuant
 	defer func() {
 		if r := recover(); r != nil {
+			v.inQuant = q0 // the aborted translation may have been inside a quantifier
 			if se, ok := r.(subsetError); ok && fc.Flags["trusted"] && strings.Contains(se.msg, "unknown type") {
 				return
 			}
@@ -1091,8 +1094,10 @@ func (v *Verifier) havocItemLenient(s *State, pre *State, env *CEnv, a *CExpr, f
 
 // trLenient translates a clause of a trusted contract; a clause about an unknown (not loaded) type is true.
 func (v *Verifier) trLenient(env *CEnv, e *CExpr, fc *FuncContract) (t *Term) {
+	q0 := v.inQuant
 	defer func() {
 		if r := recover(); r != nil {
+			v.inQuant = q0
 			if se, ok := r.(subsetError); ok && fc.Flags["trusted"] && strings.Contains(se.msg, "unknown type") {
 				t = TTrue
 				return
